@@ -1,146 +1,44 @@
-import JominiModel.Model.BinTape
+import JominiModel.Proofs.BinTapeItems
+import JominiModel.Proofs.BinTapeInv
 /-
-C06 (binary half): the declarative structural-soundness predicate `WfBinTape` of a binary tape
-and the soundness + completeness of the executable one-pass checker `wfBinTape`.
+C06 (binary half) — the theorems to be re-exported by `Props/C06.lean`.
+`WfBinTape` (Proofs/BinTapeItems.lean) is the declarative predicate, `wfBinTape` (Model/BinTape.lean)
+the executable one-pass checker used by the `wfbin` op.
 -/
 namespace Jomini.BinTape
 open Jomini
 
-/-- neither a container start nor an `End` -/
-def BTok.isPlain : BTok → Bool
-  | .array _ | .object _ | .end_ _ => false
-  | _ => true
+/-- **Checker soundness and completeness.**  The executable stack pass `wfBinTape` accepts exactly
+the tapes satisfying the declarative predicate `WfBinTape` (the whole tape is a sequence of
+complete items: plain tokens and containers `start(e) … End(i)` at indices `i ≠ 0`, `e`, nested). -/
+theorem C06_bin_checker_sound (input : Bytes) (toks : Tape) :
+    wfBinTape input toks = true ↔ WfBinTape toks :=
+  wfBinTape_iff input toks
 
-/-- `Items s seg`: the token list `seg`, sitting at tape indices `s, s+1, …`, is a sequence of
-complete items: a plain token, or a container — a start token at index `i ≠ 0` whose payload is
-the index `e` of its own `End`, a sequence of complete items, and at index `e` the token `End i`.
-Proper nesting is built in; the index arithmetic pins every `end`/`End` payload. -/
-inductive Items : Nat → Tape → Prop
-  | nil (s : Nat) : Items s []
-  | plain (s : Nat) (t : BTok) (rest : Tape) : t.isPlain = true → Items (s + 1) rest → Items s (t :: rest)
-  | cont (s e : Nat) (t : BTok) (inner rest : Tape) :
-      s ≠ 0 → (t = .array e ∨ t = .object e) → e = s + 1 + inner.length →
-      Items (s + 1) inner → Items (e + 1) rest → Items s (t :: (inner ++ .end_ s :: rest))
+example : WfBinTape [.token 1, .object 4, .token 2, .i32 5, .end_ 1] :=
+  (C06_bin_checker_sound [] _).mp (by decide)
 
-/-- **Declarative structural soundness of a binary tape** (property C06): the whole tape, from
-index 0, is a sequence of complete items.  Hence every container start indexes a later `End` that
-indexes it back, containers are properly nested, and no container / `End` carries index 0
-(`Items.cont` demands `s ≠ 0`, and `e > s`). -/
-def WfBinTape (toks : Tape) : Prop := Items 0 toks
+example : ¬ WfBinTape [.token 1, .array 3, .end_ 1] := fun h =>
+  absurd ((C06_bin_checker_sound [] _).mpr h) (by decide)
 
-/-- what is left to read, given the stack of open containers `(opener, declared end)` -/
-def Decomp : Nat → Tape → List (Nat × Nat) → Prop
-  | i, l, [] => Items i l
-  | i, l, (o, e) :: S =>
-    ∃ seg rest, l = seg ++ .end_ o :: rest ∧ Items i seg ∧ e = i + seg.length ∧ Decomp (e + 1) rest S
+/-- **The parser's invariant implies `WfBinTape` at the accepting exit, for all inputs.**
+`TInv` (Proofs/BinTapeInv.lean) holds for the initial variables (`init_inv`), is preserved by
+every iteration of the plain loop (`step_inv`), and at the accepting exit gives `WfBinTape`
+(`run_false_wf`); the optimised parser returns the same tape (`parse_true_eq_false`).  Hence
+whenever either parser accepts, on any input whatsoever, the tape is structurally sound. -/
+theorem C06_bin_inv (opt : Bool) (data : Bytes) (toks : Tape) (h : parse opt data = .ok toks) :
+    WfBinTape toks :=
+  parse_wf opt data toks h
 
-theorem decomp_plain {i : Nat} {t : BTok} {rest : Tape} {S : List (Nat × Nat)} (ht : t.isPlain = true)
-    (h : Decomp (i + 1) rest S) : Decomp i (t :: rest) S := by
-  cases S with
-  | nil => exact Items.plain i t rest ht h
-  | cons p S' =>
-    obtain ⟨o, e⟩ := p
-    obtain ⟨seg, rest', rfl, hseg, he, hd⟩ := h
-    exact ⟨t :: seg, rest', rfl, Items.plain i t seg ht hseg, by simp; omega, hd⟩
+/-- the three parts of the invariant argument, as separate facts -/
+theorem C06_bin_inv_parts :
+    (∀ data, TInv (init data).tape (init data).parent (init data).state) ∧
+    (∀ st st' : St, step st = .next st' → TInv st.tape st.parent st.state → TInv st'.tape st'.parent st'.state) ∧
+    (∀ st : St, TInv st.tape st.parent st.state → st.parent = 0 → WfBinTape st.tape) :=
+  ⟨init_inv, fun _ _ h hi => step_inv h hi, fun st hi hp => by
+    have ho := hi.openAt; rw [hp] at ho; exact ho.zero⟩
 
-theorem decomp_start {i e : Nat} {t : BTok} {rest : Tape} {S : List (Nat × Nat)} (hi : i ≠ 0)
-    (ht : t = .array e ∨ t = .object e) (h : Decomp (i + 1) rest ((i, e) :: S)) : Decomp i (t :: rest) S := by
-  obtain ⟨inner, rest', rfl, hinner, he, hd⟩ := h
-  cases S with
-  | nil => exact Items.cont i e t inner rest' hi ht (by omega) hinner hd
-  | cons p S' =>
-    obtain ⟨o, pe⟩ := p
-    obtain ⟨seg2, rest2, rfl, hseg2, hpe, hd2⟩ := hd
-    refine ⟨t :: (inner ++ .end_ i :: seg2), rest2, by simp, ?_, by simp; omega, hd2⟩
-    exact Items.cont i e t inner seg2 hi ht (by omega) hinner hseg2
-
-/-- the checker is sound: acceptance yields the decomposition along the stack -/
-theorem wfGo_sound : ∀ (l : Tape) (i n : Nat) (S : List (Nat × Nat)), wfGo l i n S = true → Decomp i l S := by
-  intro l
-  induction l with
-  | nil =>
-    intro i n S h
-    cases S with
-    | nil => exact Items.nil i
-    | cons p S' => simp [wfGo] at h
-  | cons t rest ih =>
-    intro i n S h
-    cases t with
-    | array e =>
-      simp only [wfGo, Bool.and_eq_true, bne_iff_ne, ne_eq, decide_eq_true_eq] at h
-      exact decomp_start h.1.1.1.1 (Or.inl rfl) (ih _ _ _ h.2)
-    | object e =>
-      simp only [wfGo, Bool.and_eq_true, bne_iff_ne, ne_eq, decide_eq_true_eq] at h
-      exact decomp_start h.1.1.1.1 (Or.inr rfl) (ih _ _ _ h.2)
-    | end_ idx =>
-      cases S with
-      | nil => simp [wfGo] at h
-      | cons p S' =>
-        obtain ⟨o, e⟩ := p
-        simp only [wfGo, Bool.and_eq_true, bne_iff_ne, ne_eq, beq_iff_eq] at h
-        obtain ⟨⟨⟨_, ho⟩, he⟩, hgo⟩ := h
-        subst ho; subst he
-        exact ⟨[], rest, rfl, Items.nil _, by simp, ih _ _ _ hgo⟩
-    | mixed => exact decomp_plain rfl (ih _ _ _ (by simpa [wfGo] using h))
-    | equal => exact decomp_plain rfl (ih _ _ _ (by simpa [wfGo] using h))
-    | bool b => exact decomp_plain rfl (ih _ _ _ (by simpa [wfGo] using h))
-    | u32 v => exact decomp_plain rfl (ih _ _ _ (by simpa [wfGo] using h))
-    | u64 v => exact decomp_plain rfl (ih _ _ _ (by simpa [wfGo] using h))
-    | i64 v => exact decomp_plain rfl (ih _ _ _ (by simpa [wfGo] using h))
-    | i32 v => exact decomp_plain rfl (ih _ _ _ (by simpa [wfGo] using h))
-    | quoted b => exact decomp_plain rfl (ih _ _ _ (by simpa [wfGo] using h))
-    | unquoted b => exact decomp_plain rfl (ih _ _ _ (by simpa [wfGo] using h))
-    | f32 b => exact decomp_plain rfl (ih _ _ _ (by simpa [wfGo] using h))
-    | f64 b => exact decomp_plain rfl (ih _ _ _ (by simpa [wfGo] using h))
-    | token id => exact decomp_plain rfl (ih _ _ _ (by simpa [wfGo] using h))
-    | rgb r g b a => exact decomp_plain rfl (ih _ _ _ (by simpa [wfGo] using h))
-
-theorem wfGo_plain {t : BTok} (ht : t.isPlain = true) (rest : Tape) (i n : Nat) (S : List (Nat × Nat)) :
-    wfGo (t :: rest) i n S = wfGo rest (i + 1) n S := by
-  cases t <;> first | rfl | (simp [BTok.isPlain] at ht)
-
-/-- the checker is complete: a sequence of complete items is skipped by the pass, whatever
-follows, provided it fits below the end declared by the innermost open container -/
-theorem items_go {s : Nat} {seg : Tape} (h : Items s seg) :
-    ∀ (rest : Tape) (n : Nat) (S : List (Nat × Nat)), s + seg.length ≤ n →
-      (∀ o pe S', S = (o, pe) :: S' → s + seg.length ≤ pe) →
-      wfGo (seg ++ rest) s n S = wfGo rest (s + seg.length) n S := by
-  induction h with
-  | nil s => intro rest n S _ _; simp
-  | plain s t rest' ht _ ih =>
-    intro rest n S hn hS
-    simp only [List.cons_append, wfGo_plain ht, List.length_cons] at hn hS ⊢
-    rw [ih rest n S (by omega) (by intro o pe S' h; have := hS o pe S' h; omega)]
-    congr 1; omega
-  | cont s e t inner rest' hs ht he _ _ ihi ihr =>
-    intro rest n S hn hS
-    simp only [List.length_cons, List.length_append] at hn hS
-    have e1 : wfGo (t :: (inner ++ .end_ s :: rest') ++ rest) s n S
-        = wfGo (inner ++ (.end_ s :: (rest' ++ rest))) (s + 1) n ((s, e) :: S) := by
-      cases S with
-      | nil =>
-        rcases ht with rfl | rfl <;>
-          simp [wfGo, hs, show s < e by omega, show e < n by omega]
-      | cons p S' =>
-        obtain ⟨o, pe⟩ := p
-        have := hS o pe S' rfl
-        rcases ht with rfl | rfl <;>
-          simp [wfGo, hs, show s < e by omega, show e < n by omega, show e < pe by omega]
-    rw [e1, ihi _ n ((s, e) :: S) (by omega) (by intro o pe S' h; cases h; omega)]
-    have e2 : wfGo (.end_ s :: (rest' ++ rest)) (s + 1 + inner.length) n ((s, e) :: S)
-        = wfGo (rest' ++ rest) (e + 1) n S := by
-      simp [wfGo, hs, he]
-    rw [e2, ihr rest n S (by omega) (by intro o pe S' h; have := hS o pe S' h; omega)]
-    congr 1; simp; omega
-
-/-- **C06, checker soundness and completeness**: the executable one-pass checker decides exactly
-the declarative predicate. -/
-theorem wfBinTape_iff (input : Bytes) (toks : Tape) : wfBinTape input toks = true ↔ WfBinTape toks := by
-  constructor
-  · intro h; exact wfGo_sound toks 0 toks.length [] h
-  · intro h
-    have := items_go h [] toks.length [] (by simp) (by intro o pe S' h; cases h)
-    simp only [List.append_nil, Nat.zero_add] at this
-    simp [wfBinTape, this, wfGo]
+example : parse true [0x82, 0x2d, 0x01, 0x00, 0x03, 0x00, 0x0c, 0x00, 5, 0, 0, 0, 0x04, 0x00]
+    = .ok [.token 0x2d82, .array 3, .i32 5, .end_ 1] := by rfl
 
 end Jomini.BinTape
